@@ -1,7 +1,298 @@
 import Scion.Proofs.Scmp
 import Scion.Gen.Scmp
-/-! C08 (stub, being filled) -/
+/-!
+# C08 — router packet processing never crashes and never forwards malformed packets
+
+Statement (properties.jsonl): for every byte string received on an external, sibling or internal
+link (including STUN messages on the internal link), the router's fast-path and slow-path processing
+terminate without panicking.  Every packet the router forwards, delivers or emits decodes as a SCION
+packet whose header length, payload length and path pointers are consistent.
+
+What is a theorem here (the part of C08 that is logic):
+
+* `output_consistent` — everything the model of the slow path (`Scion.Scmp.processPacket`) emits
+  has `HdrLen·4 = 12 + address header + path`, `PayloadLen =` the bytes after the header, fits the
+  16-bit/8-bit fields, lies inside the packet buffer, and its path pointers designate an existing hop
+  of the right segment (`CurrHF < NumHops`, `CurrINF = infIndexForHF(CurrHF)`).
+* `slow_path_guarded` — in the model every slice/index expression that the Go code does not guard
+  itself (`InfoFields[CurrINF]`, `HopFields[CurrHF]`, `RawPacket[:quoteLen]`,
+  `buffer[0:quoteLen+headroom]`, the prepends into the headroom / into the end of the buffer, the
+  `panic("unsupported slow-path type")`) is in range / unreachable, for every packet whose pointers
+  are consistent — which is what `parsePath` (fast path) establishes before anything can reach the
+  slow path — every request the fast path can make, every headroom the packet pool can give.
+* `computeProcID_guarded` — the model of `udpip.computeProcID` indexes only inside the datagram and
+  returns a queue number below the number of queues, for every byte string.
+* `stun_guarded` — the model of `stun.Is`/`ParseBindingRequest`/`foreachAttr` (the internal link's
+  branch for non-SCION datagrams) slices only inside the datagram, for every byte string.
+
+What is **not** a theorem (and cannot be one in this technique): memory safety / absence of panics of
+the *real* Go code (fast path `processPkt`, decoders, `stun`, BFD, the slow path).  That is tied by
+T1 only: the engine `scmp` pushes six input streams through the real `Link.receive → computeProcID →
+processPkt → slow path` on all link kinds with `recover()`, and re-decodes every forwarded, delivered
+or emitted packet with the real decoder and an independent length computation (partial).
+-/
 namespace Scion.C08
-open Scion.Scmp
-theorem gen_consts : bufSize = Scion.Gen.Scmp.bufSize := by decide
+open Scion.Scmp Scion.PathMeta Scion.Util
+
+/-- the full statement over the model, kept visible: the first conjunct (no panic for *all* byte
+strings through fast and slow path) is only partially a theorem — see `slow_path_guarded`,
+`computeProcID_guarded` for the modelled parts; the fast path is a black box tied by T1. -/
+def Statement : Prop :=
+  (∀ cfg scope headroom o rq b, WellFormed o b → Consistent b → o.raw.length + headroom ≤ bufSize →
+      headroom + maxSCMPPacketLen ≤ bufSize →
+      (rq.spType = -1 ∨ rq.spType = -2 ∨ rq.spType = 1 ∨ rq.spType = 4 ∨ rq.spType = 5 ∨ rq.spType = 6) →
+      ∀ w, processPacket cfg scope headroom o rq ≠ .panic w) ∧
+  (∀ data n seed, 0 < n → computeProcID data n seed ≠ .panic) ∧
+  (∀ data, stunParse data ≠ .panic)
+
+/-- Consistency of a packet as a receiver's decoder needs it. -/
+def OutputConsistent (r : Reply) : Prop :=
+  r.hdrLenField * lineLen = cmnHdrLen + addrHdrLen r.dstType r.srcType + pathLen r.numINF r.numHops ∧
+  r.hdrLenField ≤ 255 ∧
+  r.payloadLen + r.hdrLenField * lineLen = r.total ∧
+  r.payloadLen < 65536 ∧
+  r.pm.currHF < r.numHops ∧
+  r.pm.currINF = infIdx r.pm r.pm.currHF ∧
+  r.numINF = Scion.C19.nonEmptySegs r.pm ∧ r.numHops = sumHops r.pm ∧ Scion.C19.Shape r.pm ∧
+  r.off + r.total ≤ bufSize
+
+/-- **Every packet the slow-path model emits is consistent**, given the offending packet's path
+pointers were (fast-path guarantee). -/
+theorem output_consistent (cfg : Cfg) (scope : Scope) (headroom : Nat) (o : Offender) (rq : Request)
+    (b : Base) (hw : WellFormed o b) (hc : Consistent b)
+    (r : Reply) (h : processPacket cfg scope headroom o rq = .emit r) : OutputConsistent r := by
+  have key : ∀ t code e i, prepareSCMP cfg scope headroom o rq t code e i = .emit r →
+      (t = 1 ∨ t = 4 ∨ t = 5 ∨ t = 6 ∨ t = 131) → OutputConsistent r := by
+    intro t code e i hp ht
+    obtain ⟨rp0, peering, rp, sz, hrev, hext, hpl, hfin⟩ := prepare_emit _ _ _ _ _ _ _ _ _ _ hp
+    rcases reversePath_ok o b hw hc with ⟨w, hd⟩ | ⟨rp0', peering', hrev', hc0, hn0, hh0, hil0, hhl0, h12⟩
+    · rw [hd] at hrev; cases hrev
+    · rw [hrev'] at hrev
+      injection hrev with hrev; injection hrev with e1 e2; subst e1; subst e2
+      rcases externalStep_ok scope rp0' peering' hc0 (by omega) (by omega) h12 with ⟨w, hd⟩ | ⟨rp', hext', hc1, _, _⟩
+      · rw [hd] at hext; cases hext
+      · rw [hext'] at hext; injection hext with hext; subst hext
+        obtain ⟨hoff, hE, hN⟩ := placement_ok _ _ _ _ _ _ _ _ _ _ _ hpl
+        obtain ⟨f1, f2, f3, f4, f5, f6, f7, f8, f9, f10, f11, f12, f13, f14, f15, f16, f17, f18, f19, f20, f21, f22, f23⟩ :=
+          finish_emit _ _ _ _ _ _ _ _ _ _ _ hfin
+        obtain ⟨hs, hni, hnh, hcur, hidx⟩ := hc1
+        have hlt := consistent_currINF_lt rp'.b ⟨hs, hni, hnh, hcur, hidx⟩
+        have hact := actual_eq_predicted o.srcType cfg.hostType rp'.b.numINF rp'.b.numHops t
+          (needsAuth cfg o t e) ht
+        have hge : cmnHdrLen + addrHdrLen o.srcType cfg.hostType + pathLen rp'.b.numINF rp'.b.numHops ≤
+            actualHdrLen o.srcType cfg.hostType rp'.b.numINF rp'.b.numHops t (needsAuth cfg o t e) := by
+          unfold actualHdrLen; omega
+        have hb := hdrLen_le o.srcType cfg.hostType rp'.b.numINF rp'.b.numHops t (needsAuth cfg o t e)
+          (by omega) (by omega)
+        have htot : actualHdrLen o.srcType cfg.hostType rp'.b.numINF rp'.b.numHops t (needsAuth cfg o t e) ≤ sz.total ∧
+            sz.total ≤ 1232 := by
+          cases e
+          · obtain ⟨g1, _⟩ := hN rfl; omega
+          · obtain ⟨g0, g1, _⟩ := hE rfl
+            have hq := quoteLen_le o.raw.length (hdrLen o.srcType cfg.hostType rp'.b.numINF rp'.b.numHops t (needsAuth cfg o t true))
+            unfold maxSCMPPacketLen at g0 hq; omega
+        have hmx : maxHdrLen = 1020 := rfl
+        have hll : lineLen = 4 := rfl
+        unfold OutputConsistent
+        rw [f10, f13, f14, f15, f16, f4, f7, f3]
+        simp only [lineLen] at f2 ⊢
+        refine ⟨f2, by omega, by omega, by omega, hcur, hidx, hni, hnh, hs, by omega⟩
+  rcases processPacket_emit cfg scope headroom o rq r h with ⟨t, ht, _, _, hp⟩ | ⟨trIf, p, _, _, hp⟩
+  · exact key t rq.code true 0 hp (by omega)
+  · exact key 131 0 false trIf hp (by omega)
+
+/-- **Guardedness of the slow path**: no unguarded index or slice of `prepareSCMP` /
+`processPacket` is out of range (the model's `panic` outcome is unreachable) for packets with
+consistent pointers, requests the fast path makes, and a packet that lies in its buffer behind a
+headroom that leaves room for a maximal SCMP message (the pool's headroom is 512). -/
+theorem slow_path_guarded (cfg : Cfg) (scope : Scope) (headroom : Nat) (o : Offender) (rq : Request)
+    (b : Base) (hw : WellFormed o b) (hc : Consistent b)
+    (hbuf : o.raw.length + headroom ≤ bufSize) (hroom : headroom + maxSCMPPacketLen ≤ bufSize)
+    (hrq : rq.spType = -1 ∨ rq.spType = -2 ∨ rq.spType = 1 ∨ rq.spType = 4 ∨ rq.spType = 5 ∨ rq.spType = 6) :
+    ∀ w, processPacket cfg scope headroom o rq ≠ .panic w := by
+  have key : ∀ t code e i w, (t = 1 ∨ t = 4 ∨ t = 5 ∨ t = 6 ∨ t = 131) →
+      prepareSCMP cfg scope headroom o rq t code e i ≠ .panic w := by
+    intro t code e i w ht hp
+    unfold prepareSCMP at hp
+    rcases reversePath_ok o b hw hc with ⟨w', hd⟩ | ⟨rp0, peering, hrev, hc0, hn0, hh0, hil0, hhl0, h12⟩
+    · rw [hd] at hp; cases hp
+    · rw [hrev] at hp
+      dsimp only at hp
+      rcases externalStep_ok scope rp0 peering hc0 (by omega) (by omega) h12 with ⟨w', hd⟩ | ⟨rp, hext, hc1, _, _⟩
+      · rw [hd] at hp; cases hp
+      · rw [hext] at hp
+        dsimp only at hp
+        have hlt := consistent_currINF_lt rp.b hc1
+        have hact := actual_eq_predicted o.srcType cfg.hostType rp.b.numINF rp.b.numHops t
+          (needsAuth cfg o t e) ht
+        have hb := hdrLen_le o.srcType cfg.hostType rp.b.numINF rp.b.numHops t (needsAuth cfg o t e)
+          (by omega) (by omega)
+        have hq := quoteLen_le o.raw.length (hdrLen o.srcType cfg.hostType rp.b.numINF rp.b.numHops t (needsAuth cfg o t e))
+        have hbs : bufSize = 9000 := rfl
+        have hms : maxSCMPPacketLen = 1232 := rfl
+        -- placement cannot panic
+        have hpl : ∀ w', placement cfg headroom o.raw o.srcType cfg.hostType rp.b.numINF rp.b.numHops t
+            (needsAuth cfg o t e) e ≠ .panic w' := by
+          intro w' hpp
+          unfold placement at hpp
+          dsimp only at hpp
+          cases e
+          · simp only [Bool.false_eq_true, if_false] at hpp
+            split at hpp
+            · omega
+            · cases hpp
+          · simp only [if_true] at hpp
+            split at hpp
+            · omega
+            · split at hpp
+              · split at hpp
+                · omega
+                · cases hpp
+              · split at hpp
+                · omega
+                · split at hpp
+                  · omega
+                  · cases hpp
+        split at hp
+        · cases hp
+        · rename_i w' hpp; exact hpl w' hpp
+        · unfold finish at hp
+          split at hp
+          · cases hp
+          · split at hp
+            · cases hp
+            · split at hp
+              · cases hp
+              · cases hp
+  intro w hp
+  unfold processPacket at hp
+  have pk : ∀ t code e i w, (t = 1 ∨ t = 4 ∨ t = 5 ∨ t = 6 ∨ t = 131) →
+      packSCMP cfg scope headroom o rq t code e i ≠ .panic w := by
+    intro t code e i w ht hpk
+    unfold packSCMP at hpk
+    split at hpk
+    · cases hpk
+    · split at hpk
+      · cases hpk
+      · exact key t code e i w ht hpk
+    · exact key t code e i w ht hpk
+  have tr : ∀ i w, traceroute cfg scope headroom o rq i ≠ .panic w := by
+    intro i w ht
+    unfold traceroute at ht
+    split at ht
+    · cases ht
+    · cases ht
+    · split at ht
+      · cases ht
+      · split at ht
+        · cases ht
+        · exact pk 131 0 false i w (by omega) ht
+  split at hp
+  · cases hp
+  · split at hp
+    · exact tr _ _ hp
+    · split at hp
+      · exact tr _ _ hp
+      · rename_i hn1 hn2
+        dsimp only at hp
+        split at hp
+        · rename_i ht
+          exact pk rq.spType.toNat rq.code true 0 w (by omega) hp
+        · rename_i ht
+          omega
+
+/-- **`computeProcID` is total and guarded**: for every byte string it either rejects or returns a
+queue number `< n`; no index is out of range (and no division by zero when there is at least one
+processor queue). -/
+theorem computeProcID_guarded (data : Bytes) (n seed : Nat) (hn : 0 < n) :
+    computeProcID data n seed ≠ .panic ∧ ∀ id, computeProcID data n seed = .ok id → id < n := by
+  unfold computeProcID
+  split
+  · exact ⟨by simp, by intro id h; cases h⟩
+  · rename_i hlen
+    have hl : 12 ≤ data.length := by unfold cmnHdrLen at hlen; omega
+    have h4 : 4 < data.length := by omega
+    have h9 : 9 < data.length := by omega
+    have h1 : 1 < data.length := by omega
+    rw [List.getElem?_eq_getElem h4, List.getElem?_eq_getElem h9, List.getElem?_eq_getElem h1]
+    dsimp only
+    split
+    · exact ⟨by simp, by intro id h; cases h⟩
+    · split
+      · exact ⟨by simp, by intro id h; cases h⟩
+      · rename_i hl2
+        have hflow : ((data.drop 2).take 2).length = 2 := by
+          rw [List.length_take, List.length_drop]; omega
+        have haddr : ((data.drop cmnHdrLen).take
+            (2 * iaBytes + addrTypeLen (data[9].toNat / 16 % 16) + addrTypeLen (data[9].toNat % 16))).length =
+            2 * iaBytes + addrTypeLen (data[9].toNat / 16 % 16) + addrTypeLen (data[9].toNat % 16) := by
+          rw [List.length_take, List.length_drop]; omega
+        have hne : ¬ n = 0 := by omega
+        simp only [hflow, haddr, hne, ne_eq, not_true_eq_false, or_self, if_false]
+        refine ⟨by simp, ?_⟩
+        intro id h
+        injection h with h
+        rw [← h]
+        exact Nat.mod_lt _ hn
+
+/-- **The STUN branch of the internal link is guarded**: `stun.Is` / `ParseBindingRequest` /
+`foreachAttr` slice only inside the datagram, for every byte string (attribute lengths up to 65535,
+padding, truncated attribute headers). -/
+theorem stun_guarded (b : Bytes) : stunParse b ≠ .panic := by
+  unfold stunParse
+  split
+  · simp
+  · rename_i his
+    have hl := stunIs_len b (by simpa using his)
+    obtain ⟨ty, hty, _⟩ := slice?_some b 0 2 (by omega)
+    rw [hty]
+    dsimp only
+    split
+    · simp
+    · obtain ⟨tx, htx, _⟩ := slice?_some b 8 20 (by omega)
+      obtain ⟨at', hat, _⟩ := slice?_some b stunHeaderLen b.length (by unfold stunHeaderLen; omega)
+      rw [htx, hat]
+      dsimp only
+      split
+      · rename_i hp; exact absurd hp (stunAttrs_no_panic _ _ _)
+      · simp
+      · split
+        · simp
+        · obtain ⟨pre, hpre, _⟩ := slice?_some b 0 (b.length - 8) (by omega)
+          rw [hpre]; simp
+
+/-- the halves of `Statement` that are about modelled code hold -/
+theorem statement_partial : Statement :=
+  ⟨fun cfg scope headroom o rq b hw hc hb hr hq => slow_path_guarded cfg scope headroom o rq b hw hc hb hr hq,
+   fun data n seed hn => (computeProcID_guarded data n seed hn).1, stun_guarded⟩
+
+/-- the packet pool's headroom (`minHeadroom`, udpip's underlay headroom is 0) satisfies the
+hypothesis of `slow_path_guarded`, and the buffer is the one of the source -/
+theorem gen_consts :
+    bufSize = Scion.Gen.Scmp.bufSize ∧ Scion.Gen.Scmp.minHeadroom + maxSCMPPacketLen ≤ bufSize ∧
+    Scion.Gen.Scmp.MaxSCMPHeaderSize ≤ Scion.Gen.Scmp.minHeadroom ∧
+    maxSCMPPacketLen = Scion.Gen.Scmp.MaxSCMPPacketLen ∧ cmnHdrLen = Scion.Gen.Scmp.CmnHdrLen := by decide
+
+/-! ## non-vacuity -/
+
+def exOffender : Offender :=
+  { raw := List.replicate 100 0, pathType := 1, flowID := 5, tc := 0, srcIA := 2, srcType := 0,
+    rawSrc := [10, 0, 0, 7], pmWord := 1 * 2^24 + 3 * 2^12,
+    infos := [⟨true, false, 9, 1000⟩],
+    hops := [List.replicate 12 1, List.replicate 12 2, List.replicate 12 3],
+    l4 := .other, trID := 0, trSeq := 0, reqAuthValid := false }
+
+/-- a 3-hop, one-segment packet at hop 1 meets the hypotheses -/
+example : WellFormed exOffender ⟨⟨0, 1, 3, 0, 0⟩, 1, 3⟩ ∧ Consistent ⟨⟨0, 1, 3, 0, 0⟩, 1, 3⟩ := by
+  refine ⟨⟨by decide, rfl, rfl, ?_⟩, by simp [Consistent, Scion.C19.Shape, Scion.C19.nonEmptySegs, sumHops, infIdx]⟩
+  intro h hm
+  simp [exOffender] at hm
+  rcases hm with rfl | rfl | rfl <;> rfl
+
+example : computeProcID [0, 0, 0, 1, 17, 9, 0, 0, 1, 0, 0, 0] 4 99 = .reject := by decide
+
+/-- a binding request whose single attribute announces 65535 bytes is refused, not sliced -/
+example : stunParse ([0, 1, 0, 8, 0x21, 0x12, 0xa4, 0x42] ++ List.replicate 12 7 ++ [0x80, 0x28, 0xff, 0xff, 1, 2, 3, 4]) =
+    .malformed := by decide
+
 end Scion.C08
